@@ -218,3 +218,235 @@ Section QuotedSpec.
       apply (quoted_triples_by_rules q sr f rsq _ Hq Hbq). exists b, s0, p0, o0. repeat split; auto. rewrite Eg. discriminate.
   Qed.
 End QuotedSpec.
+
+(* ---------------------------------------------------------------- the normalisation chain on documents with quoting triples maps *)
+Definition qcopy (k : nat) (r x : rule) : rule :=
+  {| r_id := dec_of_nat k ++ sep_open ++ r_id x ++ sep_comma ++ [] ++ sep_close; r_tm := r_tm r; r_src := r_src r; r_asserted := r_asserted r;
+     r_sk := r_sk r; r_sv := r_id x; r_stt := r_stt r; r_pk := r_pk r; r_pv := r_pv r;
+     r_ok := r_ok r; r_ov := r_ov r; r_ott := r_ott r;
+     r_ld := r_ld r; r_ldk := r_ldk r; r_ldv := r_ldv r; r_gk := r_gk r; r_gv := r_gv r;
+     r_sjoin := r_sjoin r; r_ojoin := r_ojoin r |}.
+
+Lemma expand_local_unstarred f nb tm : (forall kr, In kr nb -> ueqb (r_tm (snd kr)) tm = true -> unstarred (snd kr) = true) ->
+  expand_tm (S f) nb tm = Ok (map (fun kr => with_id (fst kr) (snd kr)) (filter (fun kr => ueqb (r_tm (snd kr)) tm) nb)).
+Proof.
+  intro H. cbn [expand_tm].
+  rewrite (rmap_all_ext_in _ (fun kr => Ok [with_id (fst kr) (snd kr)])).
+  - rewrite rmap_all_pure. cbn [rbind]. f_equal. induction (filter _ nb) as [|x l IH]; simpl; auto. now rewrite IH.
+  - intros [k r] Hin. apply filter_In in Hin as [Hin E]. specialize (H (k, r) Hin E). unfold unstarred in H. cbn [snd] in H.
+    rewrite !andb_true_iff, !negb_true_iff in H. destruct H as [H1 H2]. rewrite H1, H2. reflexivity.
+Qed.
+
+Lemma expand_quoting f nb tm :
+  (forall kr, In kr nb -> ueqb (r_tm (snd kr)) tm = true ->
+     mkind_eqb (r_sk (snd kr)) KQuoted = true /\ mkind_eqb (r_ok (snd kr)) KQuoted = false /\
+     (forall kr', In kr' nb -> ueqb (r_tm (snd kr')) (r_sv (snd kr)) = true -> unstarred (snd kr') = true)) ->
+  expand_tm (S (S f)) nb tm =
+  Ok (flat_map (fun kr => map (fun x => qcopy (fst kr) (snd kr) x)
+                              (map (fun kr' => with_id (fst kr') (snd kr')) (filter (fun kr' => ueqb (r_tm (snd kr')) (r_sv (snd kr))) nb)))
+               (filter (fun kr => ueqb (r_tm (snd kr)) tm) nb)).
+Proof.
+  intro H. remember (S f) as f1. cbn [expand_tm]. subst f1.
+  rewrite (rmap_all_ext_in _ (fun kr => Ok (map (fun x => qcopy (fst kr) (snd kr) x)
+             (map (fun kr' => with_id (fst kr') (snd kr')) (filter (fun kr' => ueqb (r_tm (snd kr')) (r_sv (snd kr))) nb))))).
+  - rewrite rmap_all_pure. cbn [rbind]. f_equal. now rewrite flat_map_concat_map.
+  - intros [k r] Hin. apply filter_In in Hin as [Hin E]. destruct (H (k, r) Hin E) as (H1 & H2 & H3). cbn [snd fst] in *.
+    rewrite H1, H2. rewrite (expand_local_unstarred f nb (r_sv r) H3). cbn [rbind]. f_equal.
+    induction (map (fun kr' : nat * rule => with_id (fst kr') (snd kr')) (filter (fun kr' : nat * rule => ueqb (r_tm (snd kr')) (r_sv r)) nb)) as [|x l IH]; [reflexivity|].
+    cbn [map flat_map app]. f_equal. exact IH.
+Qed.
+
+Lemma quoting_base_rules d t rs : quoting_tm t = true -> base_rules_of d (prepare_tm t) = Ok rs ->
+  forall r, In r rs -> r_sk r = KQuoted /\ r_sv r = m_value (t_subj t) /\ mkind_eqb (r_ok r) KQuoted = false /\ r_ok r <> KParent /\
+                       r_src r = t_src t /\ r_asserted r = asserted t /\ r_tm r = t_id t.
+Proof.
+  intros Hqt Hb r Hr. unfold quoting_tm in Hqt. rewrite !andb_true_iff in Hqt. destruct Hqt as [[[[Hk Htt] Hsg] Hpoms] Hsj].
+  assert (Ek : m_kind (t_subj t) = KQuoted) by (destruct (m_kind (t_subj t)); try discriminate; reflexivity).
+  assert (Ea : negb (t_nonasserted (prepare_tm t)) && negb (match t_poms (prepare_tm t) with [] => true | _ => false end) = asserted t).
+  { rewrite prepared_nopoms. unfold asserted. reflexivity. }
+  destruct (t_poms (prepare_tm t)) as [|p0 ps0] eqn:Ep.
+  - rewrite base_rules_unfold in Hb. cbv zeta in Hb. rewrite Ep in Hb. destruct (negb _) in Hb; [discriminate|]. injection Hb as <-.
+    destruct Hr as [<-|[]]. cbn [mk_rule r_sk r_sv r_ok r_src r_asserted r_tm]. cbn [prepare_tm complete_default_graph sgraphs_to_pom class_to_pom t_subj t_src t_id].
+    rewrite Ek. cbn [undelimit mkind_eqb]. repeat split; auto. discriminate.
+  - assert (Hne : t_poms (prepare_tm t) <> []) by (rewrite Ep; discriminate).
+    destruct (base_rules_in d (prepare_tm t) rs Hb Hne) as [_ Hin]. cbv zeta in Hin. apply Hin in Hr as (pm' & Hpm' & Hr).
+    unfold prepare_tm in Hpm'. rewrite prepare_poms in Hpm'. apply in_map_iff in Hpm' as (pm & <- & Hpm).
+    assert (Ppm : plain_pom pm = true).
+    { apply in_app_iff in Hpm as [H|H]; [rewrite forallb_forall in Hpoms; auto|]. apply in_map_iff in H as (c & <- & _). apply class_pom_plain. }
+    unfold plain_pom in Ppm. rewrite !andb_true_iff in Ppm. destruct Ppm as [[Pp Po] Pg].
+    unfold pom_rules in Hr. apply gen_in in Hr as (p & o & ott & ld & ldk & ldv & gm & Hp & Hrow & Hgm & ->). cbn [p_preds p_objs p_graphs] in *.
+    rewrite effective_plain in Hrow by exact Po. cbn [p_objs] in Hrow. apply in_flat_map in Hrow as (o' & Ho & Hrow).
+    assert (Plo : plain_objmap o' = true) by (rewrite forallb_forall in Po; auto).
+    unfold obj_rows in Hrow. apply in_map_iff in Hrow as (ldr & E & _). injection E as <- _ _.
+    cbn [mk_rule r_sk r_sv r_ok r_src r_asserted r_tm]. cbn [prepare_tm complete_default_graph sgraphs_to_pom class_to_pom t_subj t_src t_id].
+    rewrite Ek. cbn [undelimit]. unfold plain_objmap, plain_map in Plo. rewrite !andb_true_iff in Plo. destruct Plo as [[Hko _] _].
+    repeat split; auto.
+    + destruct (m_kind (o_tm o')); try discriminate; reflexivity.
+    + intro E. rewrite E in Hko. discriminate.
+    + rewrite <- Ea. rewrite Ep. reflexivity.
+Qed.
+
+Lemma unquoted_unstarred r : unquoted r = true -> unstarred r = true.
+Proof. unfold unquoted, unstarred. rewrite !andb_true_iff. intros [[A B] _]. auto. Qed.
+Lemma doc_quoted_line_fields scfg rl rl' b b' sr :
+  r_pk rl' = r_pk rl -> r_pv rl' = r_pv rl -> r_ok rl' = r_ok rl -> r_ov rl' = r_ov rl -> r_ott rl' = r_ott rl ->
+  r_ld rl' = r_ld rl -> r_ldk rl' = r_ldk rl -> r_ldv rl' = r_ldv rl -> r_gk rl' = r_gk rl -> r_gv rl' = r_gv rl ->
+  (forall sr0, spec_parts scfg b' sr0 = spec_parts scfg b sr0) -> (forall sr0, rule_graph_opt scfg b' sr0 = rule_graph_opt scfg b sr0) ->
+  doc_quoted_line scfg rl' b' sr = doc_quoted_line scfg rl b sr.
+Proof.
+  intros A B C D E F G H I J K L. unfold doc_quoted_line, doc_line_with_subject, spec_po, spec_po_gen, spec_suffix_of, rule_graph_opt.
+  rewrite K. fold (rule_graph_opt scfg b' sr). rewrite L. unfold rule_graph_opt. now rewrite A, B, C, D, E, F, G, H, I, J.
+Qed.
+
+Section DocQuotedEquiv.
+  Variables (scfg : scfg) (fe : fenv) (tables : ustr -> stable).
+
+  Theorem doc_spec_is_rule_spec_quoted d0 rules :
+    quoted_doc d0 = true -> normalise d0 = Ok rules -> nodupb (map r_id rules) = true ->
+    forall x, In x (spec_lines scfg fe d0 tables) <->
+      (exists rl sr, In rl rules /\ r_asserted rl = true /\ r_sk rl <> KQuoted /\ In sr (tables (r_src rl)) /\ doc_rule_line scfg rl sr = Some x) \/
+      (exists rl b sr, In rl rules /\ r_asserted rl = true /\ r_sk rl = KQuoted /\ find_rule rules (r_sv rl) = Some b /\
+                       In sr (tables (r_src rl)) /\ doc_quoted_line scfg rl b sr = Some x).
+  Proof.
+    intros Hqd Hn Hnr. unfold quoted_doc in Hqd. apply andb_true_iff in Hqd as [Hok Hnd].
+    unfold normalise in Hn. set (d := prepare d0) in *.
+    destruct (forallb _ d) in Hn; [discriminate|].
+    destruct (rmap_all (base_rules_of d) d) as [base|e] eqn:Eb; cbn [rbind] in Hn; [|discriminate].
+    apply rmap_all_ok in Eb.
+    assert (Ed : d = map prepare_tm d0) by reflexivity.
+    assert (Tm : forall t, In t d0 -> exists rs, In rs base /\ base_rules_of d (prepare_tm t) = Ok rs).
+    { intros t Ht. assert (X : In (prepare_tm t) d) by (rewrite Ed; now apply in_map). destruct (Forall2_in_l _ _ _ _ Eb X) as (rs & H1 & H2). eauto. }
+    assert (Rs : forall rs, In rs base -> exists t, In t d0 /\ base_rules_of d (prepare_tm t) = Ok rs).
+    { intros rs Hrs. destruct (Forall2_in_r _ _ _ _ Eb Hrs) as (t' & H1 & H2). rewrite Ed in H1. apply in_map_iff in H1 as (t & <- & Ht). eauto. }
+    assert (Kind : forall t, In t d0 ->
+              (quoting_tm t = true /\ exists q, find_tm d0 (m_value (t_subj t)) = Some q /\ In q d0 /\ plain_tm q = true) \/ (quoting_tm t = false /\ plain_tm t = true)).
+    { intros t Ht. rewrite forallb_forall in Hok. specialize (Hok t Ht). unfold quoted_ok in Hok. destruct (quoting_tm t); [left|right; auto].
+      split; auto. destruct (find (fun q => ueqb (t_id q) (m_value (t_subj t))) d0) as [q|] eqn:Ef; [|discriminate]. exists q. split; [exact Ef|].
+      split; [now apply (find_some _ _ Ef)|exact Hok]. }
+    set (nb := number_from 0 (concat base)) in *.
+    assert (NbBase : forall k r, In (k, r) nb -> exists t rs, In t d0 /\ base_rules_of d (prepare_tm t) = Ok rs /\ In r rs).
+    { intros k r H. apply number_from_in in H. apply in_concat in H as (rs & Hrs & Hr). destruct (Rs rs Hrs) as (t & Ht & Hb). eauto. }
+    assert (TmOf : forall t rs r, In t d0 -> base_rules_of d (prepare_tm t) = Ok rs -> In r rs -> r_tm r = t_id t).
+    { intros t rs r Ht Hb Hr. destruct (Kind t Ht) as [[Hq _]|[_ Hp]].
+      - now destruct (quoting_base_rules d t rs Hq Hb r Hr) as (_ & _ & _ & _ & _ & _ & X).
+      - destruct (base_rules_asserted d (prepare_tm t) rs r Hb Hr) as [_ X]. exact X. }
+    assert (Uniq : forall t t', In t d0 -> In t' d0 -> t_id t = t_id t' -> t = t').
+    { intros t t' Ht Ht' E. pose proof (find_tm_nodup d0 t Hnd Ht) as A. pose proof (find_tm_nodup d0 t' Hnd Ht') as B. rewrite E, B in A. now injection A. }
+    (* the expansion of every triples map identifier *)
+    set (PEXP := fun tid : ustr => map (fun kr : nat * rule => with_id (fst kr) (snd kr)) (filter (fun kr => ueqb (r_tm (snd kr)) tid) nb)).
+    set (QEXP := fun tid : ustr => flat_map (fun kr : nat * rule => map (fun x => qcopy (fst kr) (snd kr) x) (PEXP (r_sv (snd kr)))) (filter (fun kr => ueqb (r_tm (snd kr)) tid) nb)).
+    set (qt := fun tid : ustr => match find_tm d0 tid with Some t => quoting_tm t | None => false end).
+    assert (Exp : forall tid, In tid (tm_ids d) -> expand_tm (S (length d)) nb tid = Ok (if qt tid then QEXP tid else PEXP tid)).
+    { intros tid Hin. unfold tm_ids in Hin. rewrite Ed, map_map in Hin. apply in_map_iff in Hin as (t & Eid & Ht). change (t_id (prepare_tm t)) with (t_id t) in Eid.
+      assert (Eqt : qt tid = quoting_tm t) by (unfold qt; rewrite <- Eid, (find_tm_nodup d0 t Hnd Ht); reflexivity).
+      assert (Mine : forall kr, In kr nb -> ueqb (r_tm (snd kr)) tid = true -> exists rs, base_rules_of d (prepare_tm t) = Ok rs /\ In (snd kr) rs).
+      { intros [k r] Hkr E. apply ueqb_eq in E. cbn [snd] in *. destruct (NbBase k r Hkr) as (t' & rs & Ht' & Hb & Hr).
+        assert (t' = t) by (apply Uniq; auto; rewrite <- (TmOf t' rs r Ht' Hb Hr); congruence). subst t'. eauto. }
+      rewrite Eqt. destruct (Kind t Ht) as [[Hq (q & Hf & Hqin & Hqp)]|[Hq Hp]]; rewrite Hq.
+      - assert (Hlen : exists f, length d = S f).
+        { rewrite Ed, map_length. destruct d0 as [|a l]; [contradiction|]. simpl. eauto. }
+        destruct Hlen as (f & ->). apply expand_quoting. intros kr Hkr E. destruct (Mine kr Hkr E) as (rs & Hb & Hr).
+        destruct (quoting_base_rules d t rs Hq Hb (snd kr) Hr) as (A & B & C & _). rewrite A. split; [reflexivity|]. split; [exact C|].
+        intros [k' r'] Hkr' E'. cbn [snd] in *. apply ueqb_eq in E'. destruct (NbBase k' r' Hkr') as (t' & rs' & Ht' & Hb' & Hr').
+        assert (t' = q).
+        { apply Uniq; auto. rewrite <- (TmOf t' rs' r' Ht' Hb' Hr'), E', B. unfold find_tm in Hf. apply find_some in Hf as [_ X]. apply ueqb_eq in X. now rewrite X. }
+        subst t'. apply unquoted_unstarred. now destruct (plain_base_rules d q rs' Hqp Hb' r' Hr').
+      - apply expand_local_unstarred. intros kr Hkr E. destruct (Mine kr Hkr E) as (rs & Hb & Hr). apply unquoted_unstarred.
+        now destruct (plain_base_rules d t rs Hp Hb (snd kr) Hr). }
+    rewrite (rmap_all_ext_in _ (fun tid => Ok (if qt tid then QEXP tid else PEXP tid))) in Hn by (intros tid Htid; apply Exp; now apply dedup_first_in).
+    rewrite rmap_all_pure in Hn. cbn [rbind] in Hn.
+    set (mid := concat (map _ (dedup_first (tm_ids d)))) in Hn.
+    assert (Res : rmap_all (resolve_parent mid) mid = Ok mid -> True) by auto. clear Res.
+    assert (InP : forall t rs r, In t d0 -> quoting_tm t = false -> base_rules_of d (prepare_tm t) = Ok rs -> In rs base -> In r rs -> exists k, In (with_id k r) mid /\ In (k, r) nb).
+    { intros t rs r Ht Hq Hb Hrs Hr. assert (Hc : In r (concat base)) by (apply in_concat; eauto).
+      destruct (number_from_all (concat base) 0 r Hc) as (k & Hk). exists k. split; auto. unfold mid. apply in_concat.
+      exists (if qt (t_id t) then QEXP (t_id t) else PEXP (t_id t)). split.
+      - apply in_map_iff. exists (t_id t). split; auto. apply dedup_first_in. unfold tm_ids. rewrite Ed, map_map. apply in_map_iff. exists t. auto.
+      - unfold qt. rewrite (find_tm_nodup d0 t Hnd Ht), Hq. unfold PEXP. apply in_map_iff. exists (k, r). split; auto. apply filter_In. split; auto.
+        cbn [snd]. rewrite (TmOf t rs r Ht Hb Hr). apply ueqb_refl. }
+    assert (InQ : forall t rs r q rsq b, In t d0 -> quoting_tm t = true -> base_rules_of d (prepare_tm t) = Ok rs -> In rs base -> In r rs ->
+                    find_tm d0 (m_value (t_subj t)) = Some q -> In q d0 -> plain_tm q = true -> base_rules_of d (prepare_tm q) = Ok rsq -> In rsq base -> In b rsq ->
+                    exists k k', In (qcopy k r (with_id k' b)) mid /\ In (with_id k' b) mid).
+    { intros t rs r q rsq b Ht Hq Hb Hrs Hr Hf Hqin Hqp Hbq Hrsq Hbin.
+      assert (Hc : In r (concat base)) by (apply in_concat; eauto). destruct (number_from_all (concat base) 0 r Hc) as (k & Hk).
+      assert (Hqq : quoting_tm q = false).
+      { destruct (Kind q Hqin) as [[A (q2 & _ & _ & _)]|[A _]]; [|exact A]. exfalso. unfold quoting_tm in A. rewrite !andb_true_iff in A. destruct A as [[[[A _] _] _] _].
+        unfold plain_tm, plain_map in Hqp. rewrite !andb_true_iff in Hqp. destruct Hqp as [[[[B _] _] _] _]. destruct (m_kind (t_subj q)); discriminate. }
+      destruct (InP q rsq b Hqin Hqq Hbq Hrsq Hbin) as (k' & Hmid' & Hnb'). exists k, k'. split; [|exact Hmid'].
+      unfold mid. apply in_concat. exists (if qt (t_id t) then QEXP (t_id t) else PEXP (t_id t)). split.
+      - apply in_map_iff. exists (t_id t). split; auto. apply dedup_first_in. unfold tm_ids. rewrite Ed, map_map. apply in_map_iff. exists t. auto.
+      - unfold qt. rewrite (find_tm_nodup d0 t Hnd Ht), Hq. unfold QEXP. apply in_flat_map. exists (k, r). split.
+        + apply filter_In. split; auto. cbn [snd]. rewrite (TmOf t rs r Ht Hb Hr). apply ueqb_refl.
+        + cbn [fst snd]. apply in_map_iff. exists (with_id k' b). split; auto. unfold PEXP. apply in_map_iff. exists (k', b). split; auto. apply filter_In. split; auto.
+          cbn [snd]. destruct (quoting_base_rules d t rs Hq Hb r Hr) as (_ & Esv & _). rewrite Esv, (TmOf q rsq b Hqin Hbq Hbin).
+          unfold find_tm in Hf. apply find_some in Hf as [_ X]. exact X. }
+    assert (MidCases : forall rl, In rl mid ->
+              (exists k r t rs, In t d0 /\ quoting_tm t = false /\ plain_tm t = true /\ base_rules_of d (prepare_tm t) = Ok rs /\ In r rs /\ rl = with_id k r) \/
+              (exists k r t rs q rsq k' b, In t d0 /\ quoting_tm t = true /\ base_rules_of d (prepare_tm t) = Ok rs /\ In r rs /\
+                 find_tm d0 (m_value (t_subj t)) = Some q /\ In q d0 /\ plain_tm q = true /\ base_rules_of d (prepare_tm q) = Ok rsq /\ In b rsq /\
+                 rl = qcopy k r (with_id k' b) /\ In (with_id k' b) mid)).
+    { intros rl H. unfold mid in H. apply in_concat in H as (l & Hl & Hrl). apply in_map_iff in Hl as (tid & <- & Htid). apply (proj1 (dedup_first_in _ _)) in Htid.
+      unfold tm_ids in Htid. rewrite Ed, map_map in Htid. apply in_map_iff in Htid as (t & Eid & Ht). change (t_id (prepare_tm t)) with (t_id t) in Eid.
+      assert (Eqt : qt tid = quoting_tm t) by (unfold qt; rewrite <- Eid, (find_tm_nodup d0 t Hnd Ht); reflexivity). rewrite Eqt in Hrl.
+      assert (Mine : forall k r, In (k, r) nb -> ueqb (r_tm r) tid = true -> exists rs, base_rules_of d (prepare_tm t) = Ok rs /\ In r rs).
+      { intros k r Hkr E. apply ueqb_eq in E. destruct (NbBase k r Hkr) as (t' & rs & Ht' & Hb & Hr).
+        assert (t' = t) by (apply Uniq; auto; rewrite <- (TmOf t' rs r Ht' Hb Hr); congruence). subst t'. eauto. }
+      destruct (Kind t Ht) as [[Hq (q & Hf & Hqin & Hqp)]|[Hq Hp]]; rewrite Hq in Hrl.
+      - right. unfold QEXP in Hrl. apply in_flat_map in Hrl as ([k r] & Hkr & Hrl). apply filter_In in Hkr as [Hkr E]. cbn [fst snd] in *.
+        destruct (Mine k r Hkr E) as (rs & Hb & Hr). apply in_map_iff in Hrl as (x & <- & Hx). unfold PEXP in Hx. apply in_map_iff in Hx as ([k' b] & <- & Hkb).
+        apply filter_In in Hkb as [Hkb E']. cbn [fst snd] in *. apply ueqb_eq in E'. destruct (NbBase k' b Hkb) as (t' & rsq & Ht' & Hbq & Hbin).
+        destruct (quoting_base_rules d t rs Hq Hb r Hr) as (_ & Esv & _).
+        assert (t' = q).
+        { apply Uniq; auto. rewrite <- (TmOf t' rsq b Ht' Hbq Hbin), E', Esv. unfold find_tm in Hf. apply find_some in Hf as [_ X]. apply ueqb_eq in X. now rewrite X. }
+        subst t'. destruct (Tm q Hqin) as (rsq' & Hrsq' & Hbq'). rewrite Hbq in Hbq'. injection Hbq' as <-.
+        assert (Hqq : quoting_tm q = false).
+        { destruct (Kind q Hqin) as [[A _]|[A _]]; [|exact A]. exfalso. unfold quoting_tm in A. rewrite !andb_true_iff in A. destruct A as [[[[A _] _] _] _].
+          unfold plain_tm, plain_map in Hqp. rewrite !andb_true_iff in Hqp. destruct Hqp as [[[[B _] _] _] _]. destruct (m_kind (t_subj q)); discriminate. }
+        exists k, r, t, rs, q, rsq, k', b. repeat split; auto.
+        unfold mid. apply in_concat. exists (if qt (t_id q) then QEXP (t_id q) else PEXP (t_id q)). split.
+        + apply in_map_iff. exists (t_id q). split; auto. apply dedup_first_in. unfold tm_ids. rewrite Ed, map_map. apply in_map_iff. exists q. auto.
+        + unfold qt. rewrite (find_tm_nodup d0 q Hnd Hqin), Hqq. unfold PEXP. apply in_map_iff. exists (k', b). split; auto. apply filter_In. split; auto.
+          cbn [snd]. rewrite (TmOf q rsq b Hqin Hbq Hbin). apply ueqb_refl.
+      - left. unfold PEXP in Hrl. apply in_map_iff in Hrl as ([k r] & <- & Hkr). apply filter_In in Hkr as [Hkr E]. cbn [fst snd] in *.
+        destruct (Mine k r Hkr E) as (rs & Hb & Hr). exists k, r, t, rs. repeat split; auto. }
+    assert (NoParent : forall rl, In rl mid -> r_ok rl <> KParent).
+    { intros rl H. destruct (MidCases rl H) as [(k & r & t & rs & Ht & _ & Hp & Hb & Hr & ->)|(k & r & t & rs & q & rsq & k' & b & Ht & Hq & Hb & Hr & _ & _ & _ & _ & _ & -> & _)].
+      - destruct (plain_base_rules d t rs Hp Hb r Hr) as (U & _). unfold unquoted in U. rewrite !andb_true_iff, !negb_true_iff in U. destruct U as [_ U].
+        cbn [with_id r_ok]. intro E. rewrite E in U. discriminate.
+      - destruct (quoting_base_rules d t rs Hq Hb r Hr) as (_ & _ & _ & X & _). exact X. }
+    assert (Res : rmap_all (resolve_parent mid) mid = Ok mid).
+    { rewrite (rmap_all_ext_in _ (fun r => Ok ((fun x => x) r))); [rewrite rmap_all_pure; now rewrite map_id|].
+      intros rl Hrl. pose proof (NoParent rl Hrl) as X. unfold resolve_parent. destruct (mkind_eqb (r_ok rl) KParent) eqn:E; [|reflexivity].
+      exfalso. apply X. now apply mkind_eqb_eq. }
+    rewrite Res in Hn. cbn [rbind] in Hn. destruct (existsb rule_has_blank mid) in Hn; [discriminate|]. injection Hn as <-.
+    intro x. unfold spec_lines. rewrite mem_dedup, in_flat_map. split.
+    - intros (t & Ht & Hx). destruct (asserted t) eqn:Ea; [|contradiction]. apply in_flat_map in Hx as (sr & Hsr & Hx).
+      destruct (Tm t Ht) as (rs & Hrs & Hb).
+      destruct (Kind t Ht) as [[Hq (q & Hf & Hqin & Hqp)]|[Hq Hp]].
+      + right. destruct (Tm q Hqin) as (rsq & Hrsq & Hbq).
+        destruct (proj1 (quoting_tm_lines scfg fe d0 tables d t q sr rs rsq Hq Hf Hqp Hb Hbq x) Hx) as (b & rl0 & Hbin & Hrl0 & Hline).
+        destruct (InQ t rs rl0 q rsq b Ht Hq Hb Hrs Hrl0 Hf Hqin Hqp Hbq Hrsq Hbin) as (k & k' & Hmid & Hmid').
+        destruct (quoting_base_rules d t rs Hq Hb rl0 Hrl0) as (Esk & _ & _ & _ & Esrc & Eass & _).
+        exists (qcopy k rl0 (with_id k' b)), (with_id k' b), sr. split; [exact Hmid|]. split; [cbn [qcopy r_asserted]; now rewrite Eass|].
+        split; [exact Esk|]. split; [cbn [qcopy r_sv]; now apply find_rule_nodup|]. split; [cbn [qcopy r_src]; now rewrite Esrc|]. exact Hline.
+      + left. destruct (proj1 (tm_lines_equiv scfg fe d0 tables d t sr rs Hp Hb x) Hx) as (rl0 & Hrl0 & Hline).
+        destruct (plain_base_rules d t rs Hp Hb rl0 Hrl0) as (U & Hsrc & Hass).
+        destruct (InP t rs rl0 Ht Hq Hb Hrs Hrl0) as (k & Hmid & _).
+        exists (with_id k rl0), sr. split; [exact Hmid|]. split; [cbn [with_id r_asserted]; now rewrite Hass|].
+        split; [cbn [with_id r_sk]; unfold unquoted in U; rewrite !andb_true_iff, !negb_true_iff in U; destruct U as [[U _] _]; intro E; rewrite E in U; discriminate|].
+        split; [cbn [with_id r_src]; now rewrite Hsrc|exact Hline].
+    - intros [(rl & sr & Hrl & Has & Hnq & Hsr & Hline)|(rl & b & sr & Hrl & Has & Hk & Hfb & Hsr & Hline)].
+      + destruct (MidCases rl Hrl) as [(k & r & t & rs & Ht & Hq & Hp & Hb & Hr & ->)|(k & r & t & rs & q & rsq & k' & b & Ht & Hq & Hb & Hr & _ & _ & _ & _ & _ & -> & _)].
+        * destruct (plain_base_rules d t rs Hp Hb r Hr) as (_ & Hsrc & Hass). cbn [with_id r_asserted r_src] in Has, Hsr. rewrite doc_rule_line_with_id in Hline.
+          exists t. split; auto. rewrite <- Hass, Has. apply in_flat_map. exists sr. split; [now rewrite <- Hsrc|].
+          apply (tm_lines_equiv scfg fe d0 tables d t sr rs Hp Hb). eauto.
+        * exfalso. apply Hnq. cbn [qcopy r_sk]. now destruct (quoting_base_rules d t rs Hq Hb r Hr) as (X & _).
+      + destruct (MidCases rl Hrl) as [(k & r & t & rs & Ht & Hq & Hp & Hb & Hr & ->)|(k & r & t & rs & q & rsq & k' & b0 & Ht & Hq & Hb & Hr & Hf & Hqin & Hqp & Hbq & Hbin & -> & Hmid')].
+        * exfalso. destruct (plain_base_rules d t rs Hp Hb r Hr) as (U & _). unfold unquoted in U. rewrite !andb_true_iff, !negb_true_iff in U. destruct U as [[U _] _].
+          cbn [with_id r_sk] in Hk. rewrite Hk in U. discriminate.
+        * cbn [qcopy r_sv r_asserted r_src] in Hfb, Has, Hsr. rewrite (find_rule_nodup mid (with_id k' b0) Hnr Hmid') in Hfb. injection Hfb as <-.
+          destruct (quoting_base_rules d t rs Hq Hb r Hr) as (_ & _ & _ & _ & Esrc & Eass & _).
+          exists t. split; auto. rewrite <- Eass, Has. apply in_flat_map. exists sr. split; [now rewrite <- Esrc|].
+          apply (quoting_tm_lines scfg fe d0 tables d t q sr rs rsq Hq Hf Hqp Hb Hbq x). exists b0, r. repeat split; auto.
+  Qed.
+End DocQuotedEquiv.
